@@ -28,3 +28,6 @@ def run(repo, res, tier):
     from .. import tablerules
     tablerules.rule_tb1(repo, res)
     tablerules.rule_tb5(repo, res)
+    # every value is built from the text at hand by the caller's classes: a decoder or parser that remembers values it
+    # made earlier (a per-instance memo of quantities or numbers) hands out an object made from another spelling
+    _eff.rule_estate(repo, res, families=("PVLDecoder", "PVLParser"))
